@@ -34,8 +34,9 @@ CHECKS['C03'] = dict(
          'C03_winner (any number of writers in any order: the fold of the binary rule is the LATEST writer of MAXIMAL priority - stated by the split pre <= W > post), '
          'C03_metadata (metadata keys of all competing values survive), C03_constants (force > standard > weak from the regenerated facts). '
          'has_priority_over and _replace_self/_replace_other are tied EXHAUSTIVELY (T2) to the real functions; the tree recursion by sampled correspondence on '
-         'priority-tagged histories. Partial: the lift from the per-path writer sequence to whole nested documents (C03_spine) and tag inheritance at load time '
-         '(C03_inherit) are carried by the correspondence and the latest-argmax oracle, not yet by a theorem.',
+         'priority-tagged histories. C03_container_priority_applies_below (on the loader model: every node below a node whose effective tag priority is p '
+         'has priority p, at any depth, whatever priority tags are written below; the loader model is tied to the real loader on priority-tagged documents). '
+         'Partial: the lift from the per-path writer sequence to whole nested documents (C03_spine) is carried by the correspondence and the latest-argmax oracle, not yet by a theorem.',
     design='4 (C03)',
     technique='Coq proofs about the fold of the leaf rule (latest argmax) + exhaustive vm_compute correspondence of the priority logic + sampled merge correspondence; Python latest-argmax oracle for replays')
 
@@ -44,7 +45,12 @@ CHECKS['C04'] = dict(
          'strictly outranks what the newer node offers at the same RELATIVE path, the newer node is not outranked and may create its paths, then the merged content is exactly the '
          'newer content), C04_remove_key (value-less !del removes the key, mapping stays), C04_clear (!clear leaves an empty container of the original kind and flags), '
          'C04_defaults (lists and function nodes delete by default - regenerated fact). Effective delete / priority logic tied exhaustively (T2), tree recursion by sampled correspondence. '
-         'Partial: the general protected-overlay form and !merge index-wise combination are decided by the correspondence plus a reference oracle, not by a theorem; '
+         'C04_merge_marks_refine (any number of mapping documents whose only merge-control marks are !merge - on any lists / mappings, any safety marks - flatten to the fold of the '
+         'decorated update Spec.UpdateM.upd_m: untagged lists replace, !merge lists and lists below !merge combine index-wise with the surplus appended, mappings combine key-wise; '
+         'a MergeError exactly when the update fails), C04_merge_list_elementwise (length = the longer list; common positions hold the merge of the two elements, the rest is kept / appended), '
+         'C04_class_checker_sound (membership in the theorem class is decidable; the check reports how many generated histories fall into it). The spec upd_m is additionally tied '
+         'directly to Builder.build (decoration and class membership computed in Coq from the trees the real loader built). '
+         'Partial: the general protected-overlay form (priorities below a deleting node) is decided by the correspondence plus a reference oracle, not by a theorem; '
          'lists holding lower-priority elements are a recorded known finding (D18).',
     design='4 (C04), 6 (D3, D4, D18)',
     technique='Coq proof that pruning empties an unprotected subtree and the replacement keeps exactly the newer content; exhaustive flag correspondence; sampled merge correspondence; scenario oracle for replays')
@@ -63,8 +69,10 @@ CHECKS['C15'] = dict(
          'over key-unique mappings and index-addressed lists), C15_unsafe_marks_neutral_plain (whatever !unsafe / inherited / source-level safety marks each document carries on all of '
          'its nodes, the merged data is the same), C15_unsafe_marks_anywhere_neutral (!unsafe marks, !metadata without priority, source-level safety and source names placed on ANY nodes of '
          'otherwise tag-free documents, as the loader model builds them, never change the merged data or the outcome - by the generalised refinement Proofs/MergeGen.v), '
+         'C15_key_order_neutral_plain + C15_permutation_is_peqv (permuting the entries of any mappings of any documents of a tag-free history of well-formed documents changes at most the '
+         'order of keys of the result: the reference update is a congruence for equality-up-to-entry-order, Proofs/KeyOrder.v), '
          'all lifted to the model of Builder.flatten through the C02 refinement. Partial: for tagged histories (priorities, !del, !merge) '
-         'and for the key-order and !new neutrality clauses the verdict comes from the correspondence (incl. exhaustive T2 sweeps of _get_child_kwargs and _propagate_implicit_values, '
+         'and for the !new neutrality clause the verdict comes from the correspondence (incl. exhaustive T2 sweeps of _get_child_kwargs and _propagate_implicit_values, '
          'the two procedures whose disagreement was defect D16) and five metamorphic oracles; determinism of the functional model is trivial and is checked on the implementation by building twice.',
     design='4 (C15), 6 (D16, D18)',
     technique='Coq proofs of idempotence / neutrality of the update fold lifted by refinement; exhaustive + sampled vm_compute correspondence; metamorphic oracles (twice, repeat-last, empty, permute, mark) for replays')
